@@ -149,7 +149,26 @@ def check_member_light(country: str, bban: str):
     return bad
 
 
+def runtime_shard(args):
+    """Run-time update of the country table through registry.save (shared with C18): assembly,
+    decomposition and generation follow the table in force, also for objects created earlier."""
+    from . import c18
+    from ..engine import sandbox
+    part = par.Part()
+    before = sandbox.deep_snapshot()
+    part["evals"] += 40
+    for i in range(40):
+        part.seen.add(hash(("runtime", i)))
+    for sig, exp, obs in c18.runtime_table_problems():
+        part.violation(sig + " [run-time table update]", {"kind": "runtime-table"}, exp, obs)
+    sandbox.assert_restored(before)
+    part.stat("runtime_table_updates", 3)
+    return part.done()
+
+
 def shard(args):
+    if args[0] == "runtime-table":
+        return runtime_shard(args)
     if args[0] == "after-activity":
         return after_activity_shard(args)
     if args[0] == "python -O":
@@ -269,6 +288,10 @@ def optimised_shard(args):
 
 
 def replay(case: dict) -> dict:
+    if case.get("kind") == "runtime-table":
+        from . import c18
+        probs = c18.runtime_table_problems()
+        return {"ok": not probs, "observed": [(p[0], p[2]) for p in probs]}
     if case.get("object_of"):
         ko, src = lib.outcome(lib.IBAN, bases.iban_text(case["object_of"], case["bban"]))
         k3, v3 = lib.outcome(lambda: str(lib.IBAN.from_bban(case["country"], src.bban)))
@@ -290,7 +313,7 @@ def replay(case: dict) -> dict:
 def main(tier: str) -> int:
     run = report.Run(PID, tier, "exploration", RULE)
     countries = sorted(reg.countries())
-    par.run_shards(run, shard, [("after-activity", tier), ("python -O", tier)] + [(c, tier) for c in countries])
+    par.run_shards(run, shard, [("runtime-table", tier), ("after-activity", tier), ("python -O", tier)] + [(c, tier) for c in countries])
     fams = run.stats.get("families", 0)
     run.exhaustive = (run.stats.get("families_not_residue_complete", 0) == 0)
     run.extra.update({
